@@ -24,7 +24,7 @@ METHODS = ["count_of_free_key_piece", "count_of_free_value_piece", "key_piece_si
            "keys_count_stats", "key_length_stats", "value_length_stats", "htx_filling_rate_per_mill"]
 
 
-def check(ctx):
+def _check_own(ctx):
     prog = ctx.prog
     R = Roles(prog)
     # ---- (4) forwarding
@@ -234,3 +234,11 @@ def _shape(fn):
         elif t["t"] in ("return",):
             out.append(t["t"])
     return out
+
+
+def check(ctx):
+    _check_own(ctx)
+    from .engine import import_rules
+    # the statistics read record fields: they must read them where the layout puts them
+    import_rules(ctx, "c05", {"field-position"})
+    import_rules(ctx, "c06", {"free-slot-field-position"})
